@@ -2,6 +2,7 @@
 
 import os
 from contextlib import contextmanager
+from contextvars import ContextVar
 from copy import copy
 from dataclasses import dataclass
 from enum import Enum
@@ -70,7 +71,19 @@ def _config_from_env_vars():
 
 # this config variable should be accessible globally
 CONFIG = _config_from_env_vars()
-_CONTEXT_CONFIG = copy(CONFIG)
+
+# The context configuration is local to the current thread / async task:
+# ``config_context`` blocks of concurrent validations must not see each
+# other's overrides. ``None`` means "no override in this context", in which
+# case the global configuration applies.
+_CONTEXT_CONFIG: ContextVar[Optional[PanderaConfig]] = ContextVar(
+    "pandera_context_config", default=None
+)
+
+
+def _current_context_config() -> PanderaConfig:
+    config = _CONTEXT_CONFIG.get()
+    return copy(CONFIG) if config is None else config
 
 
 @contextmanager
@@ -84,14 +97,16 @@ def config_context(
     _outer_config_ctx = get_config_context(validation_depth_default=None)
 
     try:
+        _config_ctx = copy(_outer_config_ctx)
         if validation_enabled is not None:
-            _CONTEXT_CONFIG.validation_enabled = validation_enabled
+            _config_ctx.validation_enabled = validation_enabled
         if validation_depth is not None:
-            _CONTEXT_CONFIG.validation_depth = validation_depth
+            _config_ctx.validation_depth = validation_depth
         if cache_dataframe is not None:
-            _CONTEXT_CONFIG.cache_dataframe = cache_dataframe
+            _config_ctx.cache_dataframe = cache_dataframe
         if keep_cached_dataframe is not None:
-            _CONTEXT_CONFIG.keep_cached_dataframe = keep_cached_dataframe
+            _config_ctx.keep_cached_dataframe = keep_cached_dataframe
+        _CONTEXT_CONFIG.set(_config_ctx)
 
         yield
     finally:
@@ -100,9 +115,7 @@ def config_context(
 
 def reset_config_context(conf: Optional[PanderaConfig] = None):
     """Reset the context configuration to the global configuration."""
-    # pylint: disable=global-statement
-    global _CONTEXT_CONFIG
-    _CONTEXT_CONFIG = copy(conf or CONFIG)
+    _CONTEXT_CONFIG.set(copy(conf or CONFIG))
 
 
 def get_config_global() -> PanderaConfig:
@@ -116,7 +129,7 @@ def get_config_context(
     ] = ValidationDepth.SCHEMA_AND_DATA,
 ) -> PanderaConfig:
     """Gets the configuration context."""
-    config = copy(_CONTEXT_CONFIG)
+    config = copy(_current_context_config())
 
     if config.validation_depth is None and validation_depth_default:
         config.validation_depth = validation_depth_default
